@@ -126,6 +126,21 @@ def respond (line : String) : String :=
           | none => "(err denote)")
        | .error e => Sexp.toString (errSexp e))
     | _, _ => "(bad-request denote)"
+  | some (.atom "wellscoped" :: .atom skip :: r :: .list gs :: _) =>
+    -- hypothesis of C04_hierarchy_closed_partial on the preprocessed routine: is the reading defined everywhere when exactly the
+    -- names `gs` are given?   (wellscoped <skip> <routine> (G ...))
+    match Routine.ofSexp r, gs.mapM atomStr with
+    | some r, some G =>
+      (match (do
+          let _ ← (if skip == "1" then pure () else verify r)
+          let r ← preprocessWith Generated.defaultStages r
+          sortTree r : Except Err Routine) with
+       | .ok r' =>
+         (match denoteV unitAlg (envOf G) [] r' with
+          | some nv => Sexp.toString (l [a "ok", a (if nv.allDefined then "defined" else "undefined"), a (if plainB r' then "plain" else "binders")])
+          | none => "(ok no-reading _)")
+       | .error e => Sexp.toString (errSexp e))
+    | _, _ => "(bad-request wellscoped)"
   | some (.atom "aggregate" :: .atom remove :: c :: d :: _) =>
     -- (aggregate <0|1> <croutine> ((res (target expr) ...) ...))
     match CRoutine.ofSexp c, listOfSexp aggEntryOfSexp d with
